@@ -58,7 +58,52 @@ def r17a(ctx, P):
             for a in t["args"]:
                 for fl in (slw.fields(a) & fset):
                     written.setdefault(fl, Site(w, b).loc())
-    # (2) hashed: tuples (const name, &paths.field)
+    # (2)/(3) hashed and compared.  Form-independent: in each of collect_checksums / verify_checksums (private helpers of the file
+    # spliced in, closures included) F = the SegmentPaths fields that are read, K = the string constants that reach the KEY of the
+    # checksum map (insert / collected pair in collect, `get` in verify).  Per-field names are reported when the literal tuple form
+    # makes them visible; otherwise the key sets must be equal.
+    def views(fn0):
+        v = P.inlined(fn0.path)
+        return [v] + P.closures_of(fn0) + [c for q in getattr(v, "inlined", []) if P.fn(q) is not None for c in P.closures_of(P.fn(q))]
+
+    def fields_read(fn0):
+        out = {}
+        for g in views(fn0):
+            for b_, i_, st_ in g.stmts():
+                if st_["k"] != "assign":
+                    continue
+                rv_ = st_["rv"]
+                pl_ = rv_.get("place") if rv_["k"] in ("ref", "discr") else (op_place(rv_["a"]) if rv_["k"] in ("use", "cast") else None)
+                if pl_:
+                    for x in set(place_fields(pl_)) & fset:
+                        out.setdefault(x, Site(g, b_, i_).loc())
+        return out
+
+    def key_consts(fn0, how):
+        out = set()
+        for g in views(fn0):
+            sg = Slice(g, through_all_calls=True, into_containers=True)
+            for b_, t_ in g.calls():
+                cal_ = callee_of(t_)
+                if how == "get" and re.search(r"Map(<[^>]*>|::<[^>]*>)::get$", cal_) and len(t_["args"]) > 1:
+                    for c in sg.consts(t_["args"][1]):
+                        if const_str(c):
+                            out.add(const_str(c))
+                if how == "insert" and re.search(r"Map(<[^>]*>|::<[^>]*>)::insert$", cal_) and len(t_["args"]) > 2:
+                    for c in sg.consts(t_["args"][1]):
+                        if const_str(c):
+                            out.add(const_str(c))
+            if how == "insert":
+                # pairs collected into the map: `(key.to_string(), checksum(..))` tuples
+                for b_, i_, st_ in g.stmts():
+                    if st_["k"] == "assign" and st_["rv"]["k"] == "agg" and st_["rv"].get("ak") == "tuple" and len(st_["rv"]["ops"]) == 2 and \
+                            "String" in g.local_ty(op_local(st_["rv"]["ops"][0]) or 0) and "u32" in g.local_ty(op_local(st_["rv"]["ops"][1]) or 0):
+                        for c in sg.consts(st_["rv"]["ops"][0]):
+                            if const_str(c):
+                                out.add(const_str(c))
+        return out
+    F_c, F_v = fields_read(col), fields_read(ver)
+    K_c, K_v = key_consts(col, "insert"), key_consts(ver, "get")
     hashed = {}
     slc = Slice(col)
     for b, i, s in col.stmts():
@@ -69,7 +114,6 @@ def r17a(ctx, P):
             fl = slc.fields(s["rv"]["ops"][1]) & fset
             if len(fl) == 1:
                 hashed[list(fl)[0]] = (nm, Site(col, b, i).loc())
-    # (3) compared: calls of the verify closure with a 4-tuple (label, path, checksums.get(name), data)
     compared = {}
     slv = Slice(ver, through_all_calls=True)
     for b, t in ver.calls():
@@ -90,28 +134,54 @@ def r17a(ctx, P):
                     nm = nm or const_str(c)
         if len(fl) == 1:
             compared[list(fl)[0]] = (nm, Site(ver, b).loc())
+    literal_form = len(hashed) >= 5 and len(compared) >= 4
+    if not literal_form:
+        hashed = {fl_: ("<set>", loc) for fl_, loc in F_c.items()}
+        compared = {fl_: ("<set>", loc) for fl_, loc in F_v.items()}
+        # `meta` is verified from the bytes SegmentReader::open already holds: it is compared without being read by path again
+        if "meta" in F_c and "meta" not in F_v and "meta" in K_v:
+            compared["meta"] = ("<set>", F_c["meta"])
+    keys_agree = K_c == K_v and len(K_c) >= 5
+    if not keys_agree:
+        # both sides take their (key, path) rows from one table function of the file: the keys agree by construction
+        vc, vv = P.inlined(col.path), P.inlined(ver.path)
+        shared = set(getattr(vc, "inlined", [])) & set(getattr(vv, "inlined", []))
+        for q in sorted(shared):
+            tf = P.fn(q)
+            if tf is None:
+                continue
+            reads_fields = any(st_["k"] == "assign" and st_["rv"]["k"] == "ref" and set(place_fields(st_["rv"]["place"])) & fset for _b, _i, st_ in tf.stmts())
+            n_consts = sum(1 for _b, _i, st_ in tf.stmts() if st_["k"] == "assign" and st_["rv"]["k"] in ("use", "cast") and const_str(op_const(st_["rv"]["a"]) or {}))
+            n_consts += sum(1 for _b, _i, st_ in tf.stmts() if st_["k"] == "assign" and st_["rv"]["k"] == "agg" for o in st_["rv"]["ops"] if const_str(op_const(o) or {}))
+            if reads_fields and n_consts >= 5:
+                keys_agree = True
+                ctx.note("R17.a: collect_checksums and verify_checksums both take their rows from %s: checksum keys agree by construction" % tf.short)
     # (4) removed
     removed = {}
-    slr = Slice(cl)
-    for b, i, s in cl.stmts():
-        if s["k"] == "assign" and s["rv"]["k"] == "ref":
-            fl = set(place_fields(s["rv"]["place"])) & fset
-            for x in fl:
-                removed.setdefault(x, Site(cl, b, i).loc())
-    has_remove = any(t["callee"] == N.S_REMOVE for b, t in cl.calls())
+    for g in [cl] + P.closures_of(cl):
+        for b, i, s in g.stmts():
+            if s["k"] == "assign" and s["rv"]["k"] == "ref":
+                fl = set(place_fields(s["rv"]["place"])) & fset
+                for x in fl:
+                    removed.setdefault(x, Site(g, b, i).loc())
+    has_remove = any(t["callee"] == N.S_REMOVE for g in [cl] + P.closures_of(cl) for b, t in g.calls())
     ctx.floor(rid, min(len(written), len(hashed), len(compared), len(removed)), 5, "SegmentPaths fields bound in each of the four places")
     for fl in fields:
         parts = {"written": fl in written, "hashed": fl in hashed, "compared": fl in compared, "removed": fl in removed and has_remove}
-        names_ok = fl in hashed and fl in compared and hashed[fl][0] is not None and hashed[fl][0] == compared[fl][0]
+        if literal_form:
+            names_ok = fl in hashed and fl in compared and hashed[fl][0] is not None and hashed[fl][0] == compared[fl][0]
+        else:
+            names_ok = keys_agree
         ok = all(parts.values()) and names_ok
         ctx.ob(rid, "%s:SegmentPaths.%s" % (rid, fl), ok,
                "segment file `%s`: written, hashed as '%s', compared as '%s', removed" % (fl, hashed[fl][0], compared[fl][0]) if ok else
                "segment file `%s` is not handled consistently: %s%s" % (
                    fl, {k: v for k, v in parts.items()},
                    "" if names_ok or fl not in hashed or fl not in compared else
-                   (" (checksum name '%s' at commit vs '%s' at open)" % (hashed[fl][0], compared[fl][0]) if hashed[fl][0] and compared[fl][0] else
-                    " (the checksum key is not a constant label: a key derived from the segment path stops matching once the index is "
-                    "opened under another directory, and verification is then silently skipped)")),
+                   (" (checksum name '%s' at commit vs '%s' at open)" % (hashed[fl][0], compared[fl][0]) if literal_form and hashed[fl][0] and compared[fl][0] else
+                    (" (checksum keys written at commit %s vs looked up at open %s)" % (sorted(K_c), sorted(K_v)) if not literal_form else
+                     " (the checksum key is not a constant label: a key derived from the segment path stops matching once the index is "
+                     "opened under another directory, and verification is then silently skipped)"))),
                (compared.get(fl) or hashed.get(fl) or (None, None))[1] or written.get(fl))
     # the comparison itself: the verify closure compares checksum(bytes) with the expected value and fails on mismatch
     for c in P.closures_of(ver, recursive=False):
@@ -301,6 +371,8 @@ def r17d(ctx, P):
         f = P.fns[p]
         if f.crate != "searchlite_core" or f.impl_trait == N.STOR or is_test_or_bench(f):
             continue
+        if f.kind != "closure":
+            f = P.inlined(p)          # checksum helpers of the same file are spliced in
         reads = [(b, t) for b, t in f.calls() if t["callee"] in (N.S_READ_TO_END, N.S_OPEN_READ)]
         if not reads:
             continue
@@ -394,6 +466,20 @@ def r17e(ctx, P):
                             any(x[0] == "const" and (x[1].get("int") in (32, 64, 63, 31) or "BITS" in x[1].get("txt", "")) for x in srcs):
                         ok = True
                         why = "shift amount bounded by the test at %s" % Site(f, d).loc()
+            if not ok and (kind.startswith("BoundsCheck") or kind == "index"):
+                # a dominating comparison with the buffer length whose failing arm leaves (cannot reach the access)
+                for d in f.reachable():
+                    tt = f.blocks[d]["term"]
+                    if tt["k"] != "switch" or not f.dominates_block(d, b) or d == b:
+                        continue
+                    srcs = sl.sources(tt["on"])
+                    if any(x[0] == "binop" and x[1] in ("Ge", "Gt", "Lt", "Le") for x in srcs) and \
+                            (any(x[0] == "call" and callee_of(x[2]).endswith("::len") for x in srcs) or
+                             any(x[0] == "other" and "PtrMetadata" in str(x[1]) for x in srcs)):
+                        succs = f.succ(d)
+                        if any(b not in f.reachable_from(s_) for s_ in succs):
+                            ok = True
+                            why = "guarded by the length test at %s" % Site(f, d).loc()
             if not ok:
                 for (fs, k), reason in PANIC_TABLE.items():
                     if f.short == fs and kind.startswith(k):
@@ -403,7 +489,7 @@ def r17e(ctx, P):
                    "%s at %s: %s" % (kind, site.loc(), why) if ok else
                    "%s at %s in a parser that runs on unverified bytes has no bound test and no reasoned table entry: corrupt "
                    "input can panic instead of being reported" % (t["msg"][:80] if t["k"] == "assert" else kind, site.loc()), site.loc())
-    ctx.floor(rid, n, 8, "potential panic sites in the pre-verification parsers")
+    ctx.floor(rid, n, 5, "potential panic sites in the pre-verification parsers")
 
 
 def r17f(ctx, P):
